@@ -916,22 +916,25 @@ func (w *c27Worker) row(ri int, row c27Row, res *vh.Result) {
 	for _, n := range append(append([]string{}, L.Notes...), R.Notes...) {
 		res.Drift("C27", fmt.Sprintf("%s: %s", id, n), replay)
 	}
-	// model conformance (drift): the local effect and the wire fields are what Control.tla says
+	// model conformance (drift, never hides the verdict below): the local effect and the wire fields are what Control.tla says
+	conform := true
 	if !sameEffect(L.Eff, row.Local) {
 		res.Drift("C27", fmt.Sprintf("%s: real local effect %s differs from the model's %s (components %v)", id, vh.J(L.Eff), vh.J(row.Local), diffComps(L.Eff, row.Local)), replay)
-		return
+		conform = false
 	}
 	sort.Strings(row.Wire)
 	if strings.Join(L.Wire, ",") != strings.Join(row.Wire, ",") || strings.Join(R.Wire, ",") != strings.Join(row.Wire, ",") {
 		res.Drift("C27", fmt.Sprintf("%s: control message carries fields %v (local call) / %v (remote call), the model says %v", id, L.Wire, R.Wire, row.Wire), replay)
-		return
+		conform = false
 	}
-	completed = 1
-	if len(row.X) > 0 {
-		res.Distinct(id)
-	}
-	if ri%97 == 0 {
-		res.Sample(map[string]any{"op": row.Op, "options": row.X, "wire_fields": L.Wire, "local": L.Eff, "remote": R.Eff})
+	if conform {
+		completed = 1
+		if len(row.X) > 0 {
+			res.Distinct(id)
+		}
+		if ri%97 == 0 {
+			res.Sample(map[string]any{"op": row.Op, "options": row.X, "wire_fields": L.Wire, "local": L.Eff, "remote": R.Eff})
+		}
 	}
 	if sameEffect(L.Eff, R.Eff) {
 		if row.Differs {
